@@ -88,6 +88,14 @@ func checkLayout(buf []byte, m *PSIPMsg, start, ret int) {
 		vAssert("contact-value-inside", pfIn(c.V, flEnd, int(m.Body.Offs)))
 		vAssert("contact-parts-in-V", pfSub(c.Name, c.V) && pfSub(c.URI, c.V) && pfSub(c.Params, c.V) && pfSub(c.Tag, c.Params))
 	}
+	// the first and the last value stay readable when they did not fit the
+	// caller's array (GetContact(0), GetContact(N-1)): same nesting facts
+	for _, c := range []*PFromBody{pv.Contacts.GetContact(0), pv.Contacts.GetContact(pv.Contacts.N - 1)} {
+		if c != nil {
+			vAssert("contact-value-inside", pfIn(c.V, flEnd, int(m.Body.Offs)))
+			vAssert("contact-parts-in-V", pfSub(c.Name, c.V) && pfSub(c.URI, c.V) && pfSub(c.Params, c.V) && pfSub(c.Tag, c.Params))
+		}
+	}
 	for i := 0; i < pv.PAIs.VNo(); i++ {
 		c := &pv.PAIs.Vals[i]
 		vAssert("pai-value-inside", pfIn(c.V, flEnd, int(m.Body.Offs)))
@@ -168,5 +176,25 @@ func H_C05_at(t, w, k int) {
 		return
 	}
 	checkLayout(buf[:len(m.Buf)], &m, k, ret)
+	vReach("accepted")
+}
+
+// H_C05_cap: the layout facts with caller arrays of (hcap, ccap) entries on a
+// message with three Contact headers (the first / last values beyond the
+// array are read through GetContact).
+func H_C05_cap(t, w, hcap, ccap int) {
+	buf := vTpl(t, w)
+	var m PSIPMsg
+	var hs [8]Hdr
+	var cs [4]PFromBody
+	m.Init(nil, hs[:hcap], cs[:ccap])
+	ret, e := ParseSIPMsg(buf, 0, &m, 0)
+	vObs("ret", ret)
+	vObs("e", int(e))
+	if e != 0 {
+		vReach("not-accepted")
+		return
+	}
+	checkLayout(buf, &m, 0, ret)
 	vReach("accepted")
 }
